@@ -250,8 +250,14 @@ def spec_labels(Fn, Xi, Phi, visited, eF, eX, eP, tie_guard=Fraction(0)):
     return lab, margin, cnt
 
 
-def call_real(sc, Fn, Xi, Phi, ordmin, ordmax, step, eF, eX, eP):
+def call_real(sc, Fn, Xi, Phi, ordmin, ordmax, step, eF, eX, eP, ctx=None):
     a, b, c = Fn.copy(), Xi.copy(), Phi.copy()
+    if ctx is not None:
+        # the tables' values are what matters, not how the caller stores them (each table independently)
+        from common import relayout
+
+        kinds = ("fortran", "strided", "readonly")
+        a, b, c = relayout(ctx, a, 0.2, kinds)[0], relayout(ctx, b, 0.2, kinds)[0], relayout(ctx, c, 0.2, kinds)[0]
     try:
         with np.errstate(all="ignore"):
             L = sc(a, b, c, ordmin, ordmax, step, eF, eX, eP)
@@ -316,7 +322,7 @@ def correspondence(ctx):
             "Fn": omat(Fn), "Xi": omat(Xi), "Phi": ophi(Phi), "d": d, "ordmin": ordmin, "ordmax": ordmax, "step": step,
             "err_fn": R(eF), "err_xi": R(eX), "err_phi": R(eP),
         }
-        impl, pure = call_real(sc, Fn, Xi, Phi, ordmin, ordmax, step, eF, eX, eP)
+        impl, pure = call_real(sc, Fn, Xi, Phi, ordmin, ordmax, step, eF, eX, eP, ctx)
         model = ctx.model("sc_apply", **inp)
         ok = (model == impl) and pure
         nn = int(np.isnan(Fn).sum())
@@ -437,7 +443,7 @@ def oracle(ctx, scale):
         Fn, Xi, Phi = gen_tables(ctx, maxr=14 if big else 12, maxc=41 if big else 12)
         rows, cols, d = Phi.shape
         ordmin, ordmax, step, eF, eX, eP = gen_params(ctx, cols, aligned=True)
-        impl, pure = call_real(sc, Fn, Xi, Phi, ordmin, ordmax, step, eF, eX, eP)
+        impl, pure = call_real(sc, Fn, Xi, Phi, ordmin, ordmax, step, eF, eX, eP, ctx)
         inp = {"Fn": Fn.tolist(), "Xi": Xi.tolist(), "Phi_re": Phi.real.tolist(), "Phi_im": Phi.imag.tolist(),
                "ordmin": ordmin, "ordmax": ordmax, "step": step, "err": [eF, eX, eP]}
         ctx.nontrivial.add(("oracle", rows, cols, d, ordmin, ordmax, step, int(np.isnan(Fn).sum())))
